@@ -35,9 +35,15 @@ class LSim(mosaik_api_v3.Simulator):
     def _fault(self, kind):
         f = self.fault
         if f and f[0] == kind and self.n[kind] == f[1]:
+            if f[2].startswith('badreply'):
+                # the simulator does not fail: it answers with a next step that is not later than the current one; the run is
+                # ended by the scheduler's SimulationError while this simulator is alive and well
+                self.n[kind] += 1; AFTER.setdefault(self.sid, 0); self.failed = True
+                return True
             if ':once:' in f[2]: self.n[kind] += 1        # a transient failure: the same request would succeed if it were repeated
             raise self._exc()
         self.n[kind] += 1
+        return False
     def setup_done(self):
         if self.fault and self.fault[0] == 'setup_done': raise self._exc()
     def step(self, time_, inputs, max_advance):
@@ -51,7 +57,7 @@ class LSim(mosaik_api_v3.Simulator):
             # the failure surfaces k event-loop iterations later (sweeps the moment of the failure relative to the
             # other simulators' wake-ups)
             for _ in range(int(f[2].split('@')[1])): yield asyncio.sleep(0)
-        self._fault('step')
+        if self._fault('step'): return time_
         return time_ + 1 if self.typ == 'time-based' else None
     def get_data(self, outputs):
         self._seen()
@@ -82,7 +88,7 @@ class PSim(LSim):
     def step(self, time_, inputs, max_advance):
         self._seen()
         STEPS.append((time.time(), self.sid, time_))
-        self._fault('step')
+        if self._fault('step'): return time_
         return time_ + 1 if self.typ == 'time-based' else None
     def get_data(self, outputs):
         self._seen()
@@ -249,6 +255,10 @@ def monitor(n, faulty, remote, fkind, res):
         if remote == 'all': continue         # finalize of remote simulators is not observable here
         c = res['finalized'].get(f'S{i}', 0)
         if c != 1: bad.append(f'healthy simulator S{i} was finalized {c} times')
+    if fkind.startswith('badreply') and not remote:
+        # the simulator whose reply is refused is alive: it is stopped like every other one
+        c = res['finalized'].get(f'S{faulty}', 0)
+        if c != 1: bad.append(f'the simulator S{faulty}, whose reply ended the run, was finalized {c} times')
     if res['live_children']: bad.append(f"simulator process(es) left running: {res['live_children']}")
     if res.get('sockets_left_open'): bad.append(f"{res['sockets_left_open']} socket(s) of this run were still open after run() and shutdown")
     if res.get('tasks_left') and ':ownloop' not in fkind: bad.append(f"{len(res['tasks_left'])} task(s) still pending on the event loop after run(): {res['tasks_left'][:2]}")
@@ -290,6 +300,11 @@ def cases(tier):
     for topology, faulty in (('free', 2), ('free', 0), ('pair', 1), ('chain', 2)):
         for fk, req, index in (('raise:held', 'step', 1), ('raise:held', 'step', 2), ('raise:plain:held:RuntimeError', 'step', 1), ('raise:held@3', 'step', 1)):
             out.append((topology, faulty, fk, req, index, False))
+    # a protocol violation instead of a failure: the simulator answers step() with a next step that is not later than the current
+    # one - the scheduler ends the run with a SimulationError, and the offender (alive and well) is stopped like the others
+    for topology, faulty, index, rem in (('pair', 0, 1, False), ('pair', 1, 0, False), ('chain', 1, 2, False), ('free', 2, 1, False), ('pair', 0, 1, True), ('chain', 2, 0, True)):
+        out.append((topology, faulty, 'badreply', 'step', index, rem))
+        if not rem: out.append((topology, faulty, 'badreply:plain:x', 'step', index, rem))
     # the same failures in a World(debug=True): the debug wrappers around the step must let the failure (and the cancellation
     # of the suspended survivors) through
     for topology, faulty, fk, req, index in (('pair', 0, 'raise:debug', 'step', 1), ('chain', 1, 'raise:debug', 'step', 0), ('pair', 0, 'raise:debug', 'get_data', 0),
